@@ -80,7 +80,14 @@ def options(draw, n, nch):
 @st.composite
 def cases(draw, max_bins=24):
     m = draw(matrices(max_bins=max_bins))
+    # real-valued contact matrices (e.g. normalised or down-weighted counts): every entry scaled by an exact dyadic
+    # factor, so that small counts fall strictly between 0 and 1
+    cscale = draw(st.sampled_from([None, None, None, 0.015625, 0.25]))
+    if cscale:
+        m = dict(m, rows=[[r[0], r[1], r[2] * cscale] for r in m["rows"]])
     o = draw(options(m["n"], len(m["sizes"])))
+    if cscale and o["min_count"]:
+        o = dict(o, min_count=o["min_count"] * cscale)
     # history: the Cooler object is made while the URI still holds a thinner matrix over the same bins
     return {"part": "balance", **m, "opts": o, "stale_object": draw(st.integers(0, 3)) == 0,
             # history: the same path first held (and was balanced as) a cooler with the same number of bins but other
@@ -89,13 +96,18 @@ def cases(draw, max_bins=24):
             "chunksize": draw(st.sampled_from([None, None, 10**7, max(8, len(m["rows"]) // 3)]))}
 
 
+def count_dtypes(case):
+    """Real-valued counts (matrices scaled by a dyadic factor) are stored as float64."""
+    return {"count": np.dtype("float64")} if any(isinstance(r[2], float) for r in case["rows"]) else None
+
+
 def make_cooler(ctx, case):
     from ..coolio import create_from_model
 
     edges = [[10 * k for k in range(s + 1)] for s in case["sizes"]]
     bt = {"names": [f"chr{t + 1}" for t in range(len(edges))], "edges": edges, "kinds": ["fixed"] * len(edges)}
     path = ctx.tmp(".cool")
-    call("create", create_from_model, path, bt, case["rows"], True, h5opts={"compression": None})
+    call("create", create_from_model, path, bt, case["rows"], True, dtypes=count_dtypes(case), h5opts={"compression": None})
     return path
 
 
@@ -139,7 +151,7 @@ def check_balance(case, ctx: Ctx):
             _ = clr.matrix(balance=False, sparse=True)[:]
             edges = [[10 * k for k in range(s_ + 1)] for s_ in case["sizes"]]
             bt = {"names": [f"chr{t + 1}" for t in range(len(edges))], "edges": edges, "kinds": ["fixed"] * len(edges)}
-            call("re-create with the full matrix", create_from_model, path, bt, case["rows"], True, h5opts={"compression": None}, mode="a")
+            call("re-create with the full matrix", create_from_model, path, bt, case["rows"], True, dtypes=count_dtypes(case), h5opts={"compression": None}, mode="a")
             w, stats = call("balance_cooler (object created before the re-creation)", run_balance, clr, o, **kw)
         finally:
             ctx.clean(path)
@@ -153,7 +165,7 @@ def check_balance(case, ctx: Ctx):
                      dict(o, x0=None, blacklist=None, max_iters=3))
             edges = [[10 * k for k in range(s_ + 1)] for s_ in case["sizes"]]
             bt = {"names": [f"chr{t + 1}" for t in range(len(edges))], "edges": edges, "kinds": ["fixed"] * len(edges)}
-            call("replace the collection at the same path", create_from_model, path, bt, case["rows"], True, h5opts={"compression": None})
+            call("replace the collection at the same path", create_from_model, path, bt, case["rows"], True, dtypes=count_dtypes(case), h5opts={"compression": None})
             clr = cooler.Cooler(path)
             w, stats = call("balance_cooler", run_balance, clr, o, **kw)
         finally:
@@ -168,7 +180,6 @@ def check_balance(case, ctx: Ctx):
     w = np.asarray(w, dtype=float)
     check(w.shape == (n,), f"weights shape {w.shape}")
     fin = np.isfinite(w)
-    check(bool(np.all(w[fin] > 0)), lambda: f"a finite weight is not positive: {w[fin][w[fin] <= 0][:3]}")
     var = np.asarray(stats["var"], dtype=float)
     with np.errstate(invalid="ignore"):
         check(np.array_equal(np.asarray(stats["converged"]), var < o["tol"]), f"stats['converged'] = {stats['converged']} but var = {stats['var']}, tol = {o['tol']}")
@@ -192,6 +203,9 @@ def check_balance(case, ctx: Ctx):
     # The property speaks of runs that report convergence.  A run that does not converge may diverge numerically
     # (weights beyond 1e60, infinite variance), where NaN/inf patterns depend on the order of floating-point
     # operations; the mask is then compared only if nothing blew up.
+    if conv_all or not blown:
+        # (a diverging run underflows to weights of exactly 0 as easily as it overflows)
+        check(bool(np.all(w[fin] > 0)), lambda: f"a finite weight is not positive: {w[fin][w[fin] <= 0][:3]}")
     mp = mask_problem(1, False) if (conv_all or not blown) else None
     used_known = []
     if mp is not None:
